@@ -16,6 +16,9 @@ def run(rep, tier):
         rep.call(validators.constructors_validate, rep, prog, "C04.constructors")
         rep.call(validators.unchecked_crop, rep, prog, "C04.unchecked-crop")
         rep.call(type_tables.align_table, rep, prog, "C04.align-table")
+        # "an accepted view only ever exposes rows of exactly its width"
+        from ..engines import index_rules
+        rep.call(index_rules.cropped_row_slices, rep, prog, "C04.row-width")
         n = c03.arith(rep, prog, "C04.arith", only=lambda f: any(
             f.file == s or f.file.startswith(s) for s in VALIDATOR_FILES))
         rep.floor("C04.arith", "arithmetic asserts in validators/containers", n, 30)
